@@ -319,7 +319,7 @@ class C08(Prop):
     id = "C08"
     props_file = "Props/C08.v"
     # redundant tie (core.gen_tie): these decision functions, translated from the source on every run, equal the hand model for all inputs
-    gen_tie_theorems = ['GenTie_CenterDistanceMatching_is_better_than', 'GenTie_PlaneDistanceMatching_is_better_than', 'GenTie_IOU2dMatching_is_better_than', 'GenTie_IOU3dMatching_is_better_than', 'GenTie_is_better_than_preconditions', 'GenTie_is_result_correct', 'GenTie_interpolate_precision_recall_list', 'GenTie__calculate_ap', 'GenTie_get_precision_recall_list']
+    gen_tie_theorems = ['GenTie_CenterDistanceMatching_is_better_than', 'GenTie_PlaneDistanceMatching_is_better_than', 'GenTie_IOU2dMatching_is_better_than', 'GenTie_IOU3dMatching_is_better_than', 'GenTie_is_better_than_preconditions', 'GenTie_is_result_correct', 'GenTie_interpolate_precision_recall_list', 'GenTie__calculate_ap', 'GenTie_get_precision_recall_list', 'GenTie_get_positive_objects', 'GenTie_get_negative_objects']
     extra_props_files = ["Props/Pipeline.v"]     # the composed frame pipeline (C01 -> C10 -> C03 -> C04; C08 on it)
     design_ref = "DESIGN.md section 4, C08"
     technique = "Rocq proof (monotonicity of the interpolated area via Abel summation; case analysis of is_result_correct) on the C04 model; in-Coq correspondence at threshold pairs"
